@@ -37,6 +37,7 @@ class ClientAuthenticator:
         self.unixFDSupport = self._usesUnixSocketTransport(self.protocol)
         self.guid = None
         self.cookie_dir = None  # used for testing only
+        self.waitingForAgree = False  # NEGOTIATE_UNIX_FD sent, no answer yet
 
         self.authOrder = self.preference[:]
         self.authOrder.reverse()
@@ -85,6 +86,7 @@ class ClientAuthenticator:
             raise DBusAuthenticationFailed()
 
         self.authMech = self.authOrder.pop()
+        self.waitingForAgree = False
 
         if self.authMech == b'DBUS_COOKIE_SHA1':
             self.sendAuthMessage(
@@ -119,12 +121,13 @@ class ClientAuthenticator:
         else:
             if self.unixFDSupport:
                 self.sendAuthMessage(b'NEGOTIATE_UNIX_FD')
+                self.waitingForAgree = True
             else:
                 self.sendAuthMessage(b'BEGIN')
                 self.authenticated = True
 
     def _auth_AGREE_UNIX_FD(self, line):
-        if self.unixFDSupport:
+        if self.unixFDSupport and self.waitingForAgree:
             self.sendAuthMessage(b'BEGIN')
             self.authenticated = True
         else:
@@ -169,6 +172,12 @@ class ClientAuthenticator:
                     b'ERROR ' + str(e).encode('unicode-escape'))
 
     def _auth_ERROR(self, line):
+        if self.waitingForAgree:
+            # the server accepted us but does not pass file descriptors
+            self.sendAuthMessage(b'BEGIN')
+            self.authenticated = True
+            return
+
         log.msg(
             'Authentication mechanism failed: '
             + line.decode("ascii", "replace")
